@@ -429,10 +429,103 @@ pub fn step(ex: &mut Exec, st: &mut L1State, op: &str, toks: &[&str]) -> Option<
         "st.tombstone" if toks.len() == 4 => {
             let u: u8 = toks[1].parse().ok()?;
             let e: u64 = toks[2].parse().ok()?;
+            // oracle (C20, at the level of the stored values): after tombstone(u, e) exactly the states of u with
+            // epoch <= e are tombstones, and every later state is what it was — inside a transaction as outside
+            s.db.fail_next.store(false, Ordering::SeqCst);
+            let pre = rt.block_on(s.mgr.get_user_data(&AkdLabel(vec![u]))).map(|k| k.states).unwrap_or_default();
             arm(fail(toks[3])?);
             let active = s.mgr.is_transaction_active();
             // what will be written (for the pending-log mirror)
             let r = rt.block_on(s.mgr.tombstone_value_states(&AkdLabel(vec![u]), e));
+            s.db.fail_next.store(false, Ordering::SeqCst);
+            if r.is_ok() {
+                let post = rt.block_on(s.mgr.get_user_data(&AkdLabel(vec![u]))).map(|k| k.states).unwrap_or_default();
+                for a in &pre {
+                    match post.iter().find(|b| b.epoch == a.epoch) {
+                        None => ex.fail_tag("C20", "tombstone-lost-state", format!("{:?}{}: the state of epoch {} is gone", toks, if active { " (in a transaction)" } else { "" }, a.epoch)),
+                        Some(b) if a.epoch <= e && !b.value.0.is_empty() => ex.fail_tag("C20", "tombstone-skipped-state", format!("{:?}{}: the state of epoch {} <= {} still carries its value", toks, if active { " (in a transaction)" } else { "" }, a.epoch, e)),
+                        Some(b) if a.epoch > e && (b.value != a.value || b.version != a.version) => ex.fail_tag("C20", "tombstone-touched-later-state", format!("{:?}{}: the state of epoch {} > {} was changed (value payload {} -> {})", toks, if active { " (in a transaction)" } else { "" }, a.epoch, e, value_payload(&a.value.0), value_payload(&b.value.0))),
+                        _ => {}
+                    }
+                }
+            }
+            if active {
+                // the manager put tombstones into the log: mirror every state whose value changed in the manager's view
+                if let Ok(kd) = rt.block_on(s.mgr.get_user_data(&AkdLabel(vec![u]))) {
+                    for v in kd.states {
+                        let changed = pre.iter().any(|a| a.epoch == v.epoch && (a.value != v.value || a.version != v.version));
+                        if changed {
+                            let rec = DbRecord::ValueState(v);
+                            st.st_log.retain(|x| rec_key(&show_rec(x)) != rec_key(&show_rec(&rec)));
+                            st.st_log.push(rec);
+                        }
+                    }
+                }
+            }
+            if r.is_ok() { "ok".to_string() } else { "err".to_string() }
+        }
+        "st.flush" => {
+            rt.block_on(s.mgr.flush_cache());
+            "ok".into()
+        }
+        "st.sleep" => {
+            // every cached item (except the epoch slot) outlives its 3 ms lifetime
+            std::thread::sleep(Duration::from_millis(7));
+            "ok".into()
+        }
+        "st.userstate" if toks.len() == 4 => {
+            let u: u8 = toks[1].parse().ok()?;
+            let f = parse_flag(toks[2])?;
+            arm(fail(toks[3])?);
+            match rt.block_on(s.mgr.get_user_state(&AkdLabel(vec![u]), f)) {
+                Ok(v) => show_rec(&DbRecord::ValueState(v)),
+                Err(akd::errors::StorageError::NotFound(_)) => "none".into(),
+                Err(_) => "err".into(),
+            }
+        }
+        "st.userdata" if toks.len() == 3 => {
+            let u: u8 = toks[1].parse().ok()?;
+            arm(fail(toks[2])?);
+            match rt.block_on(s.mgr.get_user_data(&AkdLabel(vec![u]))) {
+                Ok(kd) => show_many(kd.states.into_iter().map(|v| show_rec(&DbRecord::ValueState(v))).collect()),
+                Err(akd::errors::StorageError::NotFound(_)) => "[]".into(),
+                Err(_) => "err".into(),
+            }
+        }
+        "st.userversions" if toks.len() >= 3 => {
+            let f = parse_flag(toks[1])?;
+            arm(fail(toks[2])?);
+            let us: Option<Vec<u8>> = toks[3..].iter().map(|t| t.parse().ok()).collect();
+            let us = us?;
+            let labels: Vec<AkdLabel> = us.iter().map(|u| AkdLabel(vec![*u])).collect();
+            match rt.block_on(s.mgr.get_user_state_versions(&labels, f)) {
+                Ok(m) => show_many(m.into_iter().map(|(k, (ver, val))| format!("{}:{}:{}", k.0.first().cloned().unwrap_or(0), ver, value_payload(&val.0))).collect()),
+                Err(_) => "err".into(),
+            }
+        }
+        "st.tombstone" if toks.len() == 4 => {
+            let u: u8 = toks[1].parse().ok()?;
+            let e: u64 = toks[2].parse().ok()?;
+            // oracle (C20, at the level of the stored values): after tombstone(u, e) exactly the states of u with
+            // epoch <= e are tombstones, and every later state is what it was — inside a transaction as outside
+            s.db.fail_next.store(false, Ordering::SeqCst);
+            let pre = rt.block_on(s.mgr.get_user_data(&AkdLabel(vec![u]))).map(|k| k.states).unwrap_or_default();
+            arm(fail(toks[3])?);
+            let active = s.mgr.is_transaction_active();
+            // what will be written (for the pending-log mirror)
+            let r = rt.block_on(s.mgr.tombstone_value_states(&AkdLabel(vec![u]), e));
+            s.db.fail_next.store(false, Ordering::SeqCst);
+            if r.is_ok() {
+                let post = rt.block_on(s.mgr.get_user_data(&AkdLabel(vec![u]))).map(|k| k.states).unwrap_or_default();
+                for a in &pre {
+                    match post.iter().find(|b| b.epoch == a.epoch) {
+                        None => ex.fail_tag("C20", "tombstone-lost-state", format!("{:?}{}: the state of epoch {} is gone", toks, if active { " (in a transaction)" } else { "" }, a.epoch)),
+                        Some(b) if a.epoch <= e && !b.value.0.is_empty() => ex.fail_tag("C20", "tombstone-skipped-state", format!("{:?}{}: the state of epoch {} <= {} still carries its value", toks, if active { " (in a transaction)" } else { "" }, a.epoch, e)),
+                        Some(b) if a.epoch > e && (b.value != a.value || b.version != a.version) => ex.fail_tag("C20", "tombstone-touched-later-state", format!("{:?}{}: the state of epoch {} > {} was changed (value payload {} -> {})", toks, if active { " (in a transaction)" } else { "" }, a.epoch, e, value_payload(&a.value.0), value_payload(&b.value.0))),
+                        _ => {}
+                    }
+                }
+            }
             if active {
                 // the manager put tombstones into the log; mirror by re-reading the user's data
                 s.db.fail_next.store(false, Ordering::SeqCst);
